@@ -46,9 +46,10 @@ def vneg(v):
 
 
 class RefSurface:
-    def __init__(self, mesh, symmetry):
+    def __init__(self, mesh, symmetry, ground_height=None):
         self.m = mesh
         self.sym = symmetry
+        self.h = ground_height  # None: free air; else height of the origin above the ground plane
         self.nx, self.ny = mesh.shape[0], mesh.shape[1]
 
     def q(self, i, j, mirror=False):
@@ -77,10 +78,14 @@ class RefSurface:
         a, b = self.q(i, j + 1), self.q(i, j)
         return [b[k] - a[k] for k in range(3)]
 
-    def ring_induction(self, P, i, j, u, mirror=False):
+    def ring_induction(self, P, i, j, u, mirror=False, reflect=None):
         """unit-strength vortex ring of panel (i, j) (horseshoe for the last row); mirrored rings are traversed in
-        the opposite sense (image of a symmetric loading)"""
-        A, B, C, D = self.q(i, j + 1, mirror), self.q(i, j, mirror), self.q(i + 1, j, mirror), self.q(i + 1, j + 1, mirror)
+        the opposite sense (image of a symmetric loading).  reflect: map applied to the ring corners (ground image);
+        the corners of the quarter-chord lattice are built from the reflected *mesh* nodes."""
+        if reflect is None:
+            A, B, C, D = self.q(i, j + 1, mirror), self.q(i, j, mirror), self.q(i + 1, j, mirror), self.q(i + 1, j + 1, mirror)
+        else:
+            A, B, C, D = (reflect(x) for x in (self.q(i, j + 1, mirror), self.q(i, j, mirror), self.q(i + 1, j, mirror), self.q(i + 1, j + 1, mirror)))
         if mirror:
             A, B, C, D = B, A, D, C
         last = (i == self.nx - 2)
@@ -117,6 +122,18 @@ def reference(surfs, alpha_deg, beta_deg, v, omega=None, cg=None):
             if s2.sym:
                 Vc = vadd(Vc, s2.ring_induction(Pc, i2, j2, u, mirror=True))
                 Vq = vadd(Vq, s2.ring_induction(Pf, i2, j2, u, mirror=True))
+            if s2.h is not None:
+                # method of images: every ring (and its symmetry image) has an image across the plane through
+                # n*h with normal n = (sin a, 0, -cos a) (parallel to the free stream), with strength -1
+                nrm = [sin(al), ZERO, -cos(al)]
+
+                def G(x, nrm=nrm, h=s2.h):
+                    d = sum(((x[k] - nrm[k] * h) * nrm[k] for k in range(3)), ZERO)
+                    return [x[k] - 2 * d * nrm[k] for k in range(3)]
+
+                for mirror in ((False, True) if s2.sym else (False,)):
+                    Vc = vadd(Vc, vneg(s2.ring_induction(Pc, i2, j2, u, mirror=mirror, reflect=G)))
+                    Vq = vadd(Vq, vneg(s2.ring_induction(Pf, i2, j2, u, mirror=mirror, reflect=G)))
             mtx[r, c] = sum((nr[k] * Vc[k] for k in range(3)), ZERO)
             for k in range(3):
                 Vf[r, c, k] = Vq[k]
